@@ -217,7 +217,7 @@ fn pick_program(r: &mut Rng, fx: &[String]) -> (String, &'static str) {
 }
 
 /// script variables that share a name with a library global (C14: the name must not matter)
-const LIBNAMED: [&str; 9] = [
+const LIBNAMED: [&str; 14] = [
     "local math = {}\nx, math.y = 1, 2\nprint(math)\n",
     "local function f(table)\n  y, table.z = 1, 2\n  return table\nend\nprint(f)\n",
     "local os = {}\n_G.q, os.clock = 1, 2\nprint(os)\n",
@@ -227,6 +227,12 @@ const LIBNAMED: [&str; 9] = [
     "local queue = {}\ntable.insert(queue, 1)\nlocal function collect(table, value)\n  local seen = {}\n  table.insert(seen, value)\n  return table\nend\nprint(collect)\n",
     "local function collect(table, value)\n  local seen = {}\n  table.insert(seen, value)\n  return table\nend\nlocal queue = {}\ntable.insert(queue, 1)\nprint(collect)\n",
     "local log = {}\ndo\n  local table = { insert = print }\n  table.insert(log, 1)\n  table.sort(log)\nend\nlocal other = {}\ntable.insert(other, 2)\ntable.sort(other)\n",
+    // names that number parsers accept as numbers (`inf`, `nan`, `infinity`), where lints read numbers
+    "local inf = math.huge\nlocal t = { 1, 2 }\nfor i = #t, -inf do\n  print(i)\nend\nfor i = #t, inf do\n  print(i)\nend\n",
+    "local nan, infinity = 0, 1\nlocal t = {}\nfor i = #t, -nan do print(i) end\nfor i = #t, -infinity do print(i) end\nprint(1 / nan, nan / nan, t == nan)\n",
+    "local function f(inf, nan)\n  local t = { [inf] = 1, [nan] = 2, [-inf] = 3 }\n  for i = #t, -inf do print(t[i]) end\n  return inf / nan, 1 / inf\nend\nprint(f)\n",
+    "local e1, x1 = 1, 2\nlocal t = {}\nfor i = #t, e1 do print(i) end\nfor i = #t, -x1 do print(i) end\nprint(e1 / x1)\n",
+    "local aorb, a, b = 1, 2, 3\nlocal x\nx = a or b\naorb = x\nprint(aorb, x)\n",
 ];
 
 const RESERVED: [&str; 12] = ["self", "_G", "_", "type", "typeof", "require", "game", "script", "workspace", "plugin", "shared", "_ENV"];
@@ -240,7 +246,7 @@ pub fn generate_c14(seed: u64, n: usize, _thorough: bool) -> Cases {
     let in_lib = |name: &str| lib.globals.keys().any(|k| k.split('.').any(|seg| seg == name));
     for i in 0..n {
         let mut r = rng.fork(i as u64);
-        let (src, origin) = if r.chance(1, 10) { ((*r.pick(&LIBNAMED)).to_string(), "library-named") } else { pick_program(&mut r, &fx) };
+        let (src, origin) = if r.chance(1, 6) { ((*r.pick(&LIBNAMED)).to_string(), "library-named") } else { pick_program(&mut r, &fx) };
         let (ast, ds) = match lint(&ck, &src) { Some(x) => x, None => continue };
         let (toks, decl_starts) = var_tokens_decls(&ast);
         // script-introduced names: declared as a variable somewhere (scope analysis), not reserved / library / ignored
